@@ -53,7 +53,7 @@ func (g *Gen) use(f string) { g.Stats[f]++ }
 // ('') — observed defect; '' is exercised by the corpus outside EXCEPT ALL.)
 var strPool = []string{"a", "b", "B", "ab", "a ", "b1", "A"}
 
-func (g *Gen) value(ty Ty, nullable bool) Value {
+func (g *Gen) Value(ty Ty, nullable bool) Value {
 	if nullable && g.R.Chance(1, 5) {
 		return Null()
 	}
@@ -90,7 +90,7 @@ func (g *Gen) GenDb() *Db {
 			}
 			row := make([]Value, nc)
 			for j := range row {
-				row[j] = g.value(t.Tys[j], !t.NotNull[j])
+				row[j] = g.Value(t.Tys[j], !t.NotNull[j])
 			}
 			t.Rows = append(t.Rows, row)
 		}
@@ -205,16 +205,16 @@ func HasCol(e *Expr) bool {
 	return false
 }
 
-// nonConst makes a projected expression depend on a column of its input: the engine fails with an
+// NonConst makes a projected expression depend on a column of its input: the engine fails with an
 // internal error ("unable to find field with index …") when a constant column of a nested derived
 // table is referenced only by an outer filter (observed defect), so constant select items are kept
 // out of the envelope.
-func (g *Gen) nonConst(e *Expr, ty Ty, tys []Ty) *Expr {
+func (g *Gen) NonConst(e *Expr, ty Ty, tys []Ty) *Expr {
 	if HasCol(e) || len(tys) == 0 {
 		return e
 	}
 	g.use("expr:const-made-dependent")
-	return Ite(Un("isnull", Col(0, g.R.Intn(len(tys)))), e, Lit(g.value(ty, false)))
+	return Ite(Un("isnull", Col(0, g.R.Intn(len(tys)))), e, Lit(g.Value(ty, false)))
 }
 
 // unboolQ makes every output column of q non-boolean (adds a projection `c + 0` if needed).
@@ -287,7 +287,7 @@ func (g *Gen) leaf(ty Ty, sc [][]Ty) *Expr {
 	if g.R.Chance(1, 10) {
 		return Lit(Null())
 	}
-	return Lit(g.value(ty, false))
+	return Lit(g.Value(ty, false))
 }
 
 // Expr draws an expression of type ty over the scope stack sc (sc[0] = current row).
@@ -473,16 +473,35 @@ func (g *Gen) Pred(depth int, sc [][]Ty) *Expr {
 	return g.Pred(depth-1, sc)
 }
 
-// joinOn draws a join condition that depends on the joined rows (a constant-false ON of a LEFT JOIN
+// JoinOn draws a join condition that depends on the joined rows (a constant-false ON of a LEFT JOIN
 // inside EXISTS is mis-evaluated — observed defect, known finding exists_left_join_const_false).
-func (g *Gen) joinOn(depth int, all []Ty) *Expr {
-	for i := 0; i < 4; i++ {
-		if on := g.Pred(depth, [][]Ty{all}); HasCol(on) {
+func (g *Gen) JoinOn(depth int, all []Ty) *Expr {
+	// (every conjunct must depend on the rows as well: with a grouped derived table on the left, a
+	// constant non-TRUE conjunct of ON — `x.c <> -2 AND NOT (-1 <= NULL)` — is dropped when the other
+	// conjunct is pushed down, and the join degenerates to a cross join: observed defect)
+	for i := 0; i < 6; i++ {
+		if on := g.Pred(depth, [][]Ty{all}); conjunctsHaveCols(on) {
 			return on
 		}
 	}
 	i := g.R.Intn(len(all))
 	return Not(Un("isnull", Col(0, i)))
+}
+
+func conjunctsHaveCols(e *Expr) bool {
+	if e.Op == "and" {
+		return conjunctsHaveCols(e.Args[0]) && conjunctsHaveCols(e.Args[1])
+	}
+	return HasCol(e)
+}
+
+// aggArg keeps NULL-typed arguments out of aggregates (MAX(NULL) is a NULL-typed column: the
+// IN-subquery defect of known finding in_subquery_null_literal).
+func (g *Gen) aggArg(arg *Expr, ty Ty, tys []Ty) *Expr {
+	if NullTyped(arg) {
+		arg = Lit(g.Value(ty, false))
+	}
+	return g.NonConst(arg, ty, tys) // (MIN(0): constant column of a derived table, see nonConst)
 }
 
 // ---- subqueries inside expressions -------------------------------------------------------------
@@ -502,30 +521,49 @@ func (g *Gen) subBlock(depth int, outer [][]Ty) (*Query, []Ty) {
 		if g.R.Chance(1, 3) {
 			kind = "left"
 		}
-		q = Join(kind, g.joinOn(0, all), q, TableQ(m))
+		q = Join(kind, g.JoinOn(0, all), q, TableQ(m))
 		tys = all
 		g.use("sub:join")
 	}
 	if g.R.Chance(4, 5) {
 		sc := append([][]Ty{tys}, outer...)
-		q = Filter(g.Pred(depth, sc), q)
+		// the WHERE of a subquery must mention the subquery's own row: a filter on enclosing rows only
+		// makes the engine fail with "hoistOutOfScopeFilters tried to hoist filters above root node"
+		// (observed defect)
+		// (the same holds for every top-level conjunct)
+		p := g.Pred(depth, sc)
+		for i := 0; i < 4 && !conjunctsHaveCols(p); i++ {
+			p = g.Pred(depth, sc)
+		}
+		if !conjunctsHaveCols(p) {
+			p = Cmp("eq", Col(0, g.R.Intn(len(tys))), Col(0, g.R.Intn(len(tys))))
+			if tys[p.Args[0].I] != tys[p.Args[1].I] && (tys[p.Args[0].I] == TStr || tys[p.Args[1].I] == TStr) {
+				p = Not(Un("isnull", Col(0, p.Args[0].I)))
+			}
+		}
+		q = Filter(p, q)
 	}
 	return q, tys
 }
 
 func (g *Gen) oneColSub(ty Ty, depth int, outer [][]Ty) *Query {
 	if g.R.Chance(1, 4) { // uncorrelated, arbitrary shape
+		// (no set operation below an IN-subquery: "the schema of the left side of union does not match
+		// the right side, expected tinyint(1) to match bigint" — observed defect)
+		saved := g.Cfg.SetOps
+		g.Cfg.SetOps = false
 		q, tys := g.Query(depth)
+		g.Cfg.SetOps = saved
 		g.use("sub:general")
 		sc := [][]Ty{tys}
-		return Project([]*Expr{Unbool(g.nonConst(g.Expr(ty, 1, sc), ty, tys), ty, sc)}, q)
+		return Project([]*Expr{Unbool(g.NonConst(g.Expr(ty, 1, sc), ty, tys), ty, sc)}, q)
 	}
 	q, tys := g.subBlock(depth, outer)
 	// (the selected expression must depend on the subquery's own row: `x IN (SELECT <outer-only
 	// expression> FROM t WHERE <correlated>)` returns wrong results — observed defect)
 	// … and must not mention the enclosing rows at all (same defect with `IF(inner, outer, outer)`).
 	in := [][]Ty{tys}
-	return Project([]*Expr{Unbool(g.nonConst(g.Expr(ty, g.R.Intn(2), in), ty, tys), ty, in)}, q)
+	return Project([]*Expr{Unbool(g.NonConst(g.Expr(ty, g.R.Intn(2), in), ty, tys), ty, in)}, q)
 }
 
 // scalarSub draws a single-row, single-column subquery: an aggregate without GROUP BY.
@@ -536,14 +574,14 @@ func (g *Gen) scalarSub(ty Ty, depth int, outer [][]Ty) *Query {
 	var arg *Expr
 	if ty == TStr {
 		fn = hx.Pick(g.R, []string{"min", "max"})
-		arg = g.Expr(TStr, g.R.Intn(2), [][]Ty{tys})
+		arg = g.aggArg(g.Expr(TStr, g.R.Intn(2), [][]Ty{tys}), TStr, tys)
 	} else {
 		fn = hx.Pick(g.R, []string{"countstar", "count", "sum", "min", "max"})
 		at := TInt
 		if fn == "count" && g.Cfg.Strings && g.R.Chance(1, 3) {
 			at = TStr
 		}
-		arg = g.Expr(at, g.R.Intn(2), [][]Ty{tys})
+		arg = g.aggArg(g.Expr(at, g.R.Intn(2), [][]Ty{tys}), at, tys)
 	}
 	_ = sc
 	g.use("sub:scalar-" + fn)
@@ -573,12 +611,21 @@ func (g *Gen) Query(depth int) (*Query, []Ty) {
 			n := g.R.Range(1, 3)
 			es := make([]*Expr, n)
 			out := make([]Ty, n)
+			subq := false
 			for i := range es {
 				out[i] = TInt
 				if g.Cfg.Strings && g.hasType([][]Ty{tys}, TStr) && g.R.Chance(1, 3) {
 					out[i] = TStr
 				}
-				es[i] = g.nonConst(g.Expr(out[i], g.R.Range(0, 3), [][]Ty{tys}), out[i], tys)
+				es[i] = g.NonConst(g.Expr(out[i], g.R.Range(0, 3), [][]Ty{tys}), out[i], tys)
+				// at most one select item with a subquery (several conditionally evaluated subqueries in
+				// one select list returned wrong values in a thorough sweep — observed, not minimised)
+				if HasSubquery(es[i]) {
+					if subq {
+						es[i] = g.NonConst(g.Expr(out[i], 1, [][]Ty{tys}), out[i], tys)
+					}
+					subq = true
+				}
 				out[i] = TypeOf(es[i], out[i], [][]Ty{tys})
 			}
 			g.use("q:project")
@@ -604,7 +651,7 @@ func (g *Gen) Query(depth int) (*Query, []Ty) {
 			if kind == "inner" && g.R.Chance(1, 5) {
 				on = Lit(Int(1))
 			} else {
-				on = g.joinOn(g.R.Range(0, 2), all)
+				on = g.JoinOn(g.R.Range(0, 2), all)
 			}
 			g.use("q:join-" + kind)
 			j := Join(kind, on, l, r)
@@ -644,7 +691,7 @@ func (g *Gen) Query(depth int) (*Query, []Ty) {
 				if fn != "sum" && g.Cfg.Strings && g.hasType([][]Ty{tys}, TStr) && g.R.Chance(1, 3) {
 					at = TStr
 				}
-				arg := g.Expr(at, g.R.Intn(2), [][]Ty{tys})
+				arg := g.aggArg(g.Expr(at, g.R.Intn(2), [][]Ty{tys}), at, tys)
 				if fn == "countdistinct" {
 					arg = Unbool(arg, at, [][]Ty{tys})
 				}
@@ -712,7 +759,7 @@ func (g *Gen) QueryOfTypes(tys []Ty, depth int) *Query {
 	}
 	es := make([]*Expr, len(tys))
 	for i, t := range tys {
-		es[i] = Unbool(g.nonConst(g.Expr(t, g.R.Intn(2), [][]Ty{qt}), t, qt), t, [][]Ty{qt})
+		es[i] = Unbool(g.NonConst(g.Expr(t, g.R.Intn(2), [][]Ty{qt}), t, qt), t, [][]Ty{qt})
 	}
 	return Project(es, q)
 }
